@@ -361,7 +361,13 @@ func (s *sim) mem(step string) {
 	s.w.Get(np)
 	s.w.Emit(trace.M{"e": "Mem", "after": step, "mem": Snapshot(s.cluster.NodePoolState, ctlPool, s.idx),
 		"live": live, "deleting": deleting, "replicas": int(lo.FromPtr(np.Spec.Replicas)), "queued": len(s.queue.GetCommands()),
-		"held": s.nWaiting(func(world.Call) bool { return true })})
+		"held": s.nWaiting(func(world.Call) bool { return true }),
+		// grants whose NodeClaim create is still to come: workers held before Get NodePool / Create NodeClaim, commands
+		// held before the taint patch
+		"heldGrants": s.nWaiting(func(c world.Call) bool {
+			return (c.Verb == "get" && c.Kind == "NodePool") || (c.Verb == "create" && c.Kind == "NodeClaim") ||
+				(c.Verb == "patch" && c.Kind == "Node")
+		})})
 }
 
 // ---------------------------------------------------------------- environment steps
@@ -764,6 +770,7 @@ func runCtl(b CtlBehaviour, tw *trace.Writer) error {
 	np := world.NodePool(ctlPool)
 	np.Spec.Replicas = lo.ToPtr(int64(b.Cfg.Replicas0))
 	np.Spec.Limits = v1.Limits{resources.Node: *resource.NewQuantity(int64(b.Cfg.Limit), resource.DecimalSI)}
+	np.Spec.Disruption.Budgets = []v1.Budget{{Nodes: "1"}} // Budget = 1 in StaticPool.tla
 	w.EnvCreate(np)
 	w.EnvMutate(np, "PoolReady", func() {
 		np.StatusConditions().SetTrue(v1.ConditionTypeValidationSucceeded)
